@@ -11,8 +11,8 @@ RULE = (
     "cases = two-slice templates with 1-3 variables per slice (cards 2-3, string names), a random intra-slice DAG "
     "(variables without any intra-slice edge included), random inter-slice edges (one or several interface nodes; "
     "edges joining different variables included), CPDs for slice 0 and for the transition (parents declared in any "
-    "order) x query variables at times 0..T (T<=3) x evidence classes {none, non-interface only, on interface nodes, "
-    "in several slices, later than the query}. Oracle = own unrolling into a flat network with T+1 slices and its "
+    "order) x query variables at times 0..T (T<=5 for one variable, <=4 for two, <=2 for three; within one slice or anywhere) x evidence classes {none, non-interface only, on interface nodes, "
+    "in a sparse subset of the slices with gaps, in several slices, later than the query}. Oracle = own unrolling into a flat network with T+1 slices and its "
     "brute-force joint: query()/backward_inference() must equal P(X_t | all evidence), forward_inference() "
     "P(X_t | evidence up to t). Outside the three listed known findings (a queried slice >= 1 followed by more work; "
     "interface evidence before the last slice in smoothing mode) every marginal beyond slice 0 is held to 1e-8. "
@@ -90,19 +90,39 @@ def unroll(t, T):
 @st.composite
 def dbn_case(draw, min_vars=1):
     t = draw(template(min_vars))
-    T = draw(st.sampled_from([2, 1, 3, 1, 2, 0] if len(t["names"]) <= 2 else [2, 1, 1, 2, 0]))
+    names = t["names"]
+    n = len(names)
+    T = draw(st.sampled_from({1: [2, 3, 1, 4, 5, 0], 2: [2, 1, 3, 4, 2, 0], 3: [2, 1, 1, 2, 0]}[n]))
     flat = unroll(t, T)
     J = Joint.from_bn(flat)
     support = sorted(J.support_assignments())
     a = support[draw(st.integers(0, len(support) - 1))]
     nodes = flat["nodes"]
-    order = list(draw(st.permutations(nodes)))
-    nq = draw(st.integers(1, min(3, len(nodes))))
+    iface = {u for u, v in t["inter"]}
+    # query: within one slice (slice 0, the last slice or any single slice: the regions in which the engine is held to
+    # exactness beyond slice 0) or anywhere
+    qmode = draw(st.sampled_from(["slice0", "last", "any", "one_slice"]))
+    qslice = {"slice0": 0, "last": T, "one_slice": draw(st.integers(0, T)), "any": None}[qmode]
+    pool = [v for v in nodes if qslice is None or v[1] == qslice]
+    order = list(draw(st.permutations(pool)))
+    nq = draw(st.integers(1, min(3, len(order))))
     query = order[:nq]
-    rest = order[nq:]
-    mode = draw(st.sampled_from(["some", "many", "some", "none"]))
-    ne = 0 if mode == "none" else (draw(st.integers(1, 2)) if mode == "some" else min(len(rest), draw(st.integers(2, 4))))
-    evidence = [[list(v), a[J.idx[v]]] for v in rest[:ne]]
+    rest = [v for v in draw(st.permutations(nodes)) if v not in query]
+    mode = draw(st.sampled_from(["sparse", "some", "many", "sparse", "none"]))
+    if mode == "none":
+        ev_vars = []
+    elif mode == "sparse":
+        # evidence in a random subset of the slices (gaps included), optionally on non-interface variables only
+        leaf_only = draw(st.booleans())
+        slices = [s for s in range(T + 1) if draw(st.booleans())] or [draw(st.integers(0, T))]
+        ev_vars = []
+        for sl in slices:
+            cand = [v for v in rest if v[1] == sl and not (leaf_only and v[0] in iface)]
+            ev_vars.extend(cand[: draw(st.integers(1, 2))])
+    else:
+        ne = draw(st.integers(1, 2)) if mode == "some" else min(len(rest), draw(st.integers(2, 4)))
+        ev_vars = rest[:ne]
+    evidence = [[list(v), a[J.idx[v]]] for v in ev_vars]
     return {"template": t, "T": T, "query": [list(q) for q in query], "evidence": evidence}
 
 
